@@ -5,7 +5,7 @@ CONSTANTS
   Horizon = 11
   MaxNow = 24
   Sched = "prompt"
-  Weaken = "tickerNotTimer"
+  Weakens = {"tickerNotTimer"}
   Parts = {"timer"}
   Heights = {0}
   MaxCRound = 3
